@@ -23,12 +23,27 @@ def coord(rng, lo=-6, hi=10):
     return float(rng.randint(lo, hi))
 
 
-def rect_ring(x0, y0, x1, y1, ccw=True):
+_ROT = random.Random(12345)
+
+
+def rotated(ring, k=None):
+    """the same closed ring starting at another of its vertices"""
+    pts = list(zip(ring[0::2], ring[1::2]))[:-1]
+    if not pts:
+        return ring
+    k = _ROT.randrange(len(pts)) if k is None else k % len(pts)
+    pts = pts[k:] + pts[:k]
+    pts.append(pts[0])
+    return [c for p in pts for c in p]
+
+
+def rect_ring(x0, y0, x1, y1, ccw=True, start=None):
     r = [x0, y0, x1, y0, x1, y1, x0, y1, x0, y0]
     if not ccw:
         pts = list(zip(r[0::2], r[1::2]))[::-1]
         r = [c for p in pts for c in p]
-    return [float(v) for v in r]
+    r = [float(v) for v in r]
+    return rotated(r, start) if start is not None else r
 
 
 def simple_ring(rng, cx, cy, rad, ccw=True):
@@ -63,13 +78,14 @@ def polygon(rng, cx=None, cy=None, ccw=None):
     if rng.random() < 0.45:
         return [simple_ring(rng, cx, cy, 3, ccw)]
     w, h = rng.randint(3, 5), rng.randint(3, 5)
-    shell = rect_ring(cx - w, cy - h, cx + w, cy + h, ccw)
+    # every ring starts at an arbitrary one of its vertices
+    shell = rect_ring(cx - w, cy - h, cx + w, cy + h, ccw, start=rng.randrange(4))
     holes = []
     nh = rng.choice([0, 1, 1, 2])
     if nh >= 1:
-        holes.append(rect_ring(cx - w + 1, cy - h + 1, cx - 1, cy + h - 1, not ccw))
+        holes.append(rect_ring(cx - w + 1, cy - h + 1, cx - 1, cy + h - 1, not ccw, start=rng.randrange(4)))
     if nh >= 2:
-        holes.append(rect_ring(cx + 1, cy - h + 1, cx + w - 1, cy - 1, not ccw))
+        holes.append(rect_ring(cx + 1, cy - h + 1, cx + w - 1, cy - 1, not ccw, start=rng.randrange(4)))
     return [shell] + holes
 
 
